@@ -3,7 +3,8 @@ From Coq Require Import String Ascii List Bool.
 Import ListNotations.
 Require Import Verif.Codec.JsonClean Verif.Codec.JsonCleanProps Verif.Codec.Source
                Verif.Codec.Dispatch Verif.Codec.DispatchProps
-               Verif.Codec.PostProcess Verif.Codec.PostProcessProps
+               Verif.Codec.PostProcess Verif.Codec.PostProcessProps Verif.Codec.AssocProps Verif.Codec.CollectorProps
+               Verif.Codec.JsonTokens Verif.Codec.JsonTokensProps Verif.Codec.FileWrite
                Verif.Gen.JsonRegex Verif.Gen.PbDispatch.
 
 (* ---- the JSON clean-up removes the salt and nothing else: every document of protojson's line shape (any keys and
@@ -83,7 +84,46 @@ Theorem C09_post_idempotent_mixin_refuted : exists cn m m1 m2,
 Proof. exact post_idempotent_mixin_refuted. Qed.
 Print Assumptions C09_post_idempotent_mixin_refuted.
 
-Theorem C09_post_idempotent_partial : forall cn m, sorted_keys m = true ->
-  no_mixins m = true -> no_collector cn m = true -> post cn m = Some m.
-Proof. exact post_idempotent_partial. Qed.
-Print Assumptions C09_post_idempotent_partial.
+(* idempotent - so re-import is exact - for every module whose collector statements carry scalar attributes only and
+   whose mixin sources are settled: idem_cond = per application coll_cond (endpoint map key-sorted, every statement
+   has a kind, collector statements are actions/calls with AVal attributes only) and key-sorted attribute maps, and
+   `settled`: every mixin source is rebuilt earlier, is the application itself, is absent, or has no mixins itself.
+   Both refutation witnesses are outside (PostProcessProps.witnesses_outside), ex_inside is inside. *)
+Theorem C09_post_idempotent : forall cn m m1, idem_cond cn m = true -> post cn m = Some m1 -> post cn m1 = Some m1.
+Proof. exact post_idempotent. Qed.
+Print Assumptions C09_post_idempotent.
+
+(* under that condition the heap model of the collector (with pointer sharing) equals a closed form *)
+Theorem C09_collector_closed_form : forall cn eps, coll_cond cn eps = true -> collector cn eps = Some (coll_result cn eps).
+Proof. exact collector_closed_form. Qed.
+Print Assumptions C09_collector_closed_form.
+
+(* re-import = decode, merge into the empty module, post-process: it is post o post (decoder contract as hypothesis) ... *)
+Theorem C09_reimport_is_post_post : forall (code:Type) (encode:pmodule -> code) (decode:code -> option pmodule),
+  (forall m, decode (encode m) = Some m) -> forall cn m m1,
+  sorted m = true -> post cn m = Some m1 -> reimport code decode cn (encode m1) = post cn m1.
+Proof. exact reimport_is_post_post. Qed.
+Print Assumptions C09_reimport_is_post_post.
+
+(* ... hence a specification that only imports a compiled model compiles to the same applications *)
+Theorem C09_reimport_reproduces : forall (code:Type) (encode:pmodule -> code) (decode:code -> option pmodule),
+  (forall m, decode (encode m) = Some m) -> forall cn m m1,
+  sorted m = true -> idem_cond cn m = true -> post cn m = Some m1 -> reimport code decode cn (encode m1) = Some m1.
+Proof. exact reimport_reproduces. Qed.
+Print Assumptions C09_reimport_reproduces.
+
+(* ---- JSON output stays well-formed: the clean-up does not change the token stream (strings opaque) *)
+Theorem C09_clean_keeps_tokens : forall ls s, wf_doc ls = true -> tok s (clean KeyEsc (print ls)) = tok s (print ls).
+Proof. exact clean_keeps_tokens. Qed.
+Print Assumptions C09_clean_keeps_tokens.
+
+Theorem C09_clean_output_well_formed : forall ls,
+  wf_doc ls = true -> json_wf (print ls) = true -> json_wf (clean KeyEsc (print ls)) = true.
+Proof. exact clean_output_well_formed. Qed.
+Print Assumptions C09_clean_output_well_formed.
+
+(* ---- file writers replace what the path held (open modes regenerated from output.go) *)
+Theorem C09_written_file_is_the_encoding : forall w m fs p b,
+  In (w, m) file_writers -> exists fs', write_file m fs p b = Some fs' /\ read fs' p = Some b.
+Proof. exact written_file_is_the_encoding. Qed.
+Print Assumptions C09_written_file_is_the_encoding.
